@@ -170,11 +170,11 @@ def stats_cases(draw, max_side, max_zones=5):
 
 
 def shards(tier):
-    n, per, side = (12, 400, 8) if tier == "quick" else (16, 4000, 14)
+    n, per, side = (12, 400, 8) if tier == "quick" else (16, 25000, 14)
     return [("stats#%d" % i, lambda ctx: drive_hypothesis(ctx, body_stats, stats_cases(side), per)) for i in range(n)]
 
 
-LEVEL_TEXT = ("Randomised search (Hypothesis; ~5k cases quick, ~60k thorough) over zone layouts, value dtypes, nodata, zone_ids, stat subsets, user reducers and "
+LEVEL_TEXT = ("Randomised search (Hypothesis; ~5k cases quick, ~400k thorough) over zone layouts, value dtypes, nodata, zone_ids, stat subsets, user reducers and "
               "both return types, compared row by row / cell by cell with brute-force per-zone masks evaluated in float64.")
 LEVEL_NOTE = "Sampled; NumPy backend only (Dask is C03); oracle is mask arithmetic with math.fsum; float32 values compared at float32 tolerance."
 TECHNIQUE = "property-based testing (Hypothesis) against a brute-force per-zone reference model"
